@@ -6,6 +6,7 @@ without a plugin error.  Every scan of every document under every rule set is on
 (Trace_Report); the second scan of the same input must print the same thing (Trace_Obs)."""
 import io
 import os
+import zlib
 import random
 
 from .. import corpus, docgen, impl, obs, runs, tlc, tracev
@@ -48,6 +49,18 @@ def _scan(job):
                     "repeat_same": None if o2 is None else (o2["out"] == o["out"] and o2["code"] == o["code"]),
                     "out2": None if o2 is None else o2["out"][-300:]})
     return {"lens": lens, "vlens": vlens, "runs": out}
+
+
+def _multi(job):
+    """several files in ONE invocation (all rules): the scan must not fail internally and must say about each file what its solo scan says"""
+    names, datas, argv = job
+    files = [("m%02d.md" % i, d) for i, d in enumerate(datas)]
+    o = runs.execute(files, argv + ["scan"] + [n for n, _ in files], keep_contents=False)
+    per = {}
+    for f in obs.parse_failures(o["out"]):
+        per.setdefault(f[0], []).append(f[1:])
+    return {"ok": (not o["exc"]) and o["code"] in (0, 1) and "BadPluginError" not in o["err"] and "Unexpected Error" not in o["err"],
+            "err": o["err"][-400:], "per": {n: per.get("m%02d.md" % i, []) for i, n in enumerate(names)}}
 
 
 def run(pid, tier):
@@ -98,6 +111,25 @@ def run(pid, tier):
             if o["repeat_same"] is not None:
                 otraces.append([{"key": "output", "val": "first", "forbidden": False, "src": "scan 1"},
                                 {"key": "output", "val": "first" if o["repeat_same"] else "different", "forbidden": False, "src": "scan 2"}])
+    # ---- several files per invocation: family and shape documents in groups of 7 (long ones first), under "all rules"
+    solo = {name: next((o for o in rr["runs"] if o["cfg"] == "all"), None) for (name, _d, _m), rr in zip(jobs, res)}
+    cand = [(name, data) for (name, data, _m) in jobs if name.startswith(("fixfam/", "shape/", "extra/")) and solo.get(name) and solo[name]["ok"]]
+    cand.sort(key=lambda nd: (zlib.crc32(nd[0].encode()) % 97, -len(nd[1])))
+    groups = [cand[i:i + 7] for i in range(0, len(cand), 7)]
+    groups = [sorted(g, key=lambda nd: -len(nd[1])) for g in groups]
+    mres = impl.pmap(_multi, [([n for n, _ in g], [d for _, d in g], cfgs[1][1]) for g in groups], procs=16, chunksize=2)
+    for g, o in zip(groups, mres):
+        if not o["ok"]:
+            ctx.violation("multi-file-scan-fails:%s" % "+".join(n.split("/")[0] for n, _ in g[:1]) + ":" + g[0][0],
+                          {"documents": [n for n, _ in g], "stderr": o["err"]})
+            continue
+        for n, _d in g:
+            want = [tuple(f[1:]) for f in solo[n]["failures"]]
+            got = [tuple(f) for f in o["per"][n]]
+            if sorted(want) != sorted(got):
+                ctx.violation("multi-file-scan-differs-from-solo:" + n, {"document": n, "scanned_with": [x for x, _ in g], "solo": want[:8], "together": got[:8]})
+    ctx.ev.parts["multi_file_invocations"] = len(groups)
+    ctx.ev.cov["evaluations"] = ctx.ev.cov.get("evaluations", 0) + len(groups)
     tr_, verdicts = tracev.validate("trace/Trace_Report", "Trace_Report.cfg", traces, "c07")
     ctx.ev.add_tlc("Trace_Report (%d scans)" % len(traces), tr_)
     tr2, v2 = obs.validate(otraces, "c07r")
